@@ -283,3 +283,9 @@ CHECKS["C04"]["note"] = CHECKS["C04"]["note"] + ' A STRING branch in which nothi
 CHECKS["C10"]["note"] = CHECKS["C10"]["note"] + ' R10.3 additionally demands that the empty error list behind VALIDATED comes from a pass made with the same `strict` argument as the pass that judged the document; a filtered copy of the error list (severity != warning) is the deciding list.'
 CHECKS["C14"]["note"] = CHECKS["C14"]["note"] + ' Added after the third seeding round: R14.8 (no key is dropped from an exported mapping because of its converted value, e.g. `if v is not None`).'
 CHECKS["C17"]["note"] = CHECKS["C17"]["note"] + ' Added after the third seeding round: R17.10 (the temp file is removed on every path that leaves after a failed re-check); path facts are three-valued (None-or-error locals, text read is never None, base_hash truthiness).'
+
+# fifth round (second build session)
+CHECKS["C08"]["text"] = CHECKS["C08"]["text"] + (" Also: TYPE tests the value against a kind -> type table that is exactly STRING str, NUMBER int|float, BOOLEAN bool, LIST list, unknown kinds reject (R08.9); "
+    "every accepting return of DATE lies past a shape test whose language is exactly dddd-dd-dd (automata, both inclusions) and past a completed fromisoformat/strptime of the value's text, ISO8601 past the completed parse (R08.10); "
+    "REGEX compiles the schema's pattern without flags and applies match/fullmatch to str(value), acceptance only where the match held (R08.11).")
+CHECKS["C08"]["note"] = CHECKS["C08"]["note"].replace("REGEX match semantics and anchoring, DATE/ISO8601 calendar validity", "what the re / datetime library calls themselves compute (assumed: CPython semantics)")
